@@ -1,3 +1,4 @@
 pub mod drive;
 pub mod reverse;
 pub mod limits;
+pub mod reject;
